@@ -20,6 +20,7 @@ class Hist:
         self.deps = False
         self.second_pkg = None
         self.collide = collide
+        self.flip = False       # the second package's root is sent first
         if collide:
             # a module name claimed by two files of the same package: src/m1.gleam and test/m1.gleam
             self.files.append(["/w/p/test/m1.gleam", 'pub fn f() { "s" }\npub fn gg() { "s" }\npub fn a() { "s" }\npub fn x() { "s" }\n'])
@@ -31,6 +32,10 @@ class Hist:
         other = [i for i in self.live if self.files[i][0].startswith("/w/q/")]
         if other:
             spec.append("/w/q|" + ",".join(f"{i}={self.files[i][0]}" for i in other))
+        if self.flip:
+            # the same roots in another order: a root's number is its position in the list (the server partitions the
+            # files with a hash map, the order is whatever comes out)
+            spec.reverse()
         return ";".join(spec)
 
     def graph_spec(self):
@@ -90,7 +95,9 @@ class Hist:
                 self.files.append(["/w/q/gleam.toml", 'name = "q"\n'])
                 self.second_pkg = len(self.files) - 1
                 self.files.append(["/w/q/src/m9.gleam", "pub fn far() { 1 }\n"])
-                new = [len(self.files) - 2, len(self.files) - 1]
+                # a module of the second package that needs its sibling: its answers depend on the package's module map
+                self.files.append(["/w/q/src/m8.gleam", "import m9\npub fn near() {\n  let x = m9.far()\n  x\n}\n"])
+                new = [len(self.files) - 3, len(self.files) - 2, len(self.files) - 1]
             else:
                 name = r.choice(["n1", "n2", "deep/n3"])
                 path = f"/w/p/src/{name}.gleam"
@@ -106,6 +113,10 @@ class Hist:
             self.live.remove(i)
             self.files[i][1] = ""
             return ("none", self.roots_spec(), f"{i}:-")
+        if self.second_pkg is not None and r.random() < 0.5:
+            # the roots are sent again in the other order (nothing else changes)
+            self.flip = not self.flip
+            return (self.graph_spec() if r.random() < 0.5 else "none", self.roots_spec(), "-")
         # dependency edge on/off
         self.deps = not self.deps
         return (self.graph_spec(), "none", "-")
@@ -119,8 +130,9 @@ class Hist:
             qs.append(f"diag\t{i}")
             qs.append(f"sem\t{i}")
             n = len(t.encode())
-            for _ in range(4):
-                o = rng.randrange(0, n + 1)
+            import re as _re
+            quals = [len(t[:m.start() + 1].encode()) for m in _re.finditer(r"\.[a-z_A-Z]", t)][:3]
+            for o in [rng.randrange(0, n + 1) for _ in range(4)] + quals:
                 qs.append(f"goto\t{i}\t{o}")
                 qs.append(f"hover\t{i}\t{o}")
                 qs.append(f"refs\t{i}\t{o}")
